@@ -38,7 +38,7 @@ def fml_sx(f):
 
 def term_z3(real, t):
     if isinstance(t, int):
-        return t
+        return z3.IntVal(t)       # never let Python fold or reflect integer sub-expressions
     k = t[0]
     if k == "tstart":
         return real.tasks[t[1]]._start
@@ -65,6 +65,8 @@ def fml_z3(real, f):
     if k == "or":
         return z3.Or([fml_z3(real, x) for x in f[1:]])
     a, c = term_z3(real, f[1]), term_z3(real, f[2])
+    if isinstance(f[2], int):
+        c = f[2]              # a z3 numeral on the right would be reflected too (IntNumRef subclasses ArithRef)
     return {"<=": lambda: a <= c, "<": lambda: a < c, ">=": lambda: a >= c, ">": lambda: a > c,
             "=": lambda: a == c, "!=": lambda: a != c}[k]()
 
